@@ -132,6 +132,7 @@ type Interp struct {
 	events            []string
 	lastModel         map[string]uint64
 	obs               []obsRec
+	goTimers          map[*Obj]*timer
 	fmtPanics         int
 	fmtPanicDesc      []string
 	fmtDepth          int
@@ -561,6 +562,15 @@ func (it *Interp) mkViolation(kind, label, detail string, extra *Term) *Violatio
 	ins := it.modelInputs(extra)
 	if ins == nil {
 		return nil
+	}
+	for _, og := range it.gs {
+		if og.status != gDone && !og.isMain {
+			where := ""
+			if len(og.frames) > 0 {
+				where = it.top(og).fn.String()
+			}
+			detail += fmt.Sprintf(" [alive g%d %s lib=%v status=%d wait=%s in %s]", og.id, og.name, og.lib, og.status, og.waitTag, where)
+		}
 	}
 	v := &Violation{Harness: it.harness, Label: label, Kind: kind, Detail: detail, Inputs: ins}
 	v.Dict = it.dictModel(it.lastModel)
